@@ -36,13 +36,14 @@ Next ==
        IN IF c = "OK"
           THEN /\ objs' = po.objs
                /\ dict' = po.dict
+               /\ cmemo' = po.cm
                /\ last' = [ev |-> e.ev, chk |-> c, dev |-> ""]
                /\ l' = l + 1
                /\ drift' = drift + (IF Drift(Cur, e.ev, r) THEN 1 ELSE 0)
                /\ UNCHANGED verdict
           ELSE /\ verdict' = c
                /\ last' = [ev |-> e.ev, chk |-> c, dev |-> ""]
-               /\ UNCHANGED << objs, dict, l, drift >>
+               /\ UNCHANGED << objs, dict, cmemo, l, drift >>
     /\ UNCHANGED tid
 
 \* the S-layer invariant holds in every state the judge accepts (belt and braces: Check
@@ -57,6 +58,13 @@ NeqFields(i, j) ==
          { fs[k] : k \in { k2 \in 1..Len(fs) : ~PyEq(objs[i].tree.f[k2], objs[j].tree.f[k2]) } }
     ELSE {}
 
+\* how the k-th live object came to be: the k-th recorded event that created an object
+ViaOf(e) == IF e.ev.op = "New" THEN e.ev.md
+            ELSE IF e.ev.op = "Copy" /\ e.ev.md = "pickle" THEN "pickle" ELSE ""
+arrival == LET evs == Traces[tid].evs
+               cr  == SelectSeq(SubSeq(evs, 1, l - 1), LAMBDA e : e.r.k = "new")
+           IN [k \in 1..Len(cr) |-> ViaOf(cr[k])]
+
 Done == verdict # "" \/ l > Len(Traces[tid].evs)
 Report ==
     Done =>
@@ -65,6 +73,8 @@ Report ==
       ELSE LET ev == last.ev IN
            PrintT(ToJson([id |-> rec.id, v |-> verdict, n |-> l, drift |-> drift,
                           op |-> ev.op, fn |-> ev.fn, md |-> ev.md,
+                          \* how the compared / looked-up objects came to be here ("" = built here)
+                          via |-> { arrival[k] : k \in { k2 \in {ev.i, ev.j} : k2 \in 1..Len(arrival) } } \ {""},
                           ci |-> ClsOf(ev.i), cj |-> ClsOf(ev.j),
                           tmpl |-> IF ClsOf(ev.i) = "" THEN "" ELSE TmplOf(ClsOf(ev.i)),
                           own |-> IF ClsOf(ev.i) # "" /\ ev.fn # ""
